@@ -294,15 +294,18 @@ func runWire(t *testing.T, s *Scenario) (evs []wire.Event) {
 		var run *result.TracerouteRun
 		var err error
 		panicked := ""
-		func() {
+		hung := watchdog(t, w, func() {
 			defer func() {
 				if r := recover(); r != nil {
 					panicked = fmt.Sprint(r)
 				}
 			}()
 			run, err = callProto(ctx, s, target)
-		}()
-		ret := []any{"ok", err == nil && panicked == "", "panic", panicked, "err", errInfo(err), "has_result", run != nil}
+		})
+		if hung {
+			run, err = nil, errors.New("harness watchdog: the call did not return within 30 minutes of virtual time")
+		}
+		ret := []any{"ok", err == nil && panicked == "" && !hung, "hung", hung, "panic", panicked, "err", errInfo(err), "has_result", run != nil}
 		if run != nil {
 			ret = append(ret, "hops", hopsOf(run), "src", ipStr(run.Source.IPAddress), "sport", int(run.Source.Port),
 				"dst", ipStr(run.Destination.IPAddress), "dport", int(run.Destination.Port))
@@ -318,6 +321,29 @@ func runWire(t *testing.T, s *Scenario) (evs []wire.Event) {
 		evs = w.Events()
 	})
 	return evs
+}
+
+// watchdog runs f and returns true if it is still running after 30 minutes of virtual time; the wire is then stopped (every
+// handle operation fails from then on) and f gets three more minutes to unwind.
+func watchdog(t *testing.T, w *wire.Wire, f func()) bool {
+	done := make(chan struct{})
+	go func() {
+		defer close(done)
+		f()
+	}()
+	select {
+	case <-done:
+		return false
+	case <-time.After(30 * time.Minute): // (the trace clock is in microseconds and TLC integers are 32 bit)
+	}
+	w.LogEvent("Watchdog")
+	w.Stop()
+	select {
+	case <-done:
+	case <-time.After(3 * time.Minute):
+		t.Fatalf("harness: the code under test is stuck and does not unwind after its handles were aborted")
+	}
+	return true
 }
 
 func entryOf(s *Scenario) string {
